@@ -115,9 +115,13 @@ def gen_valid(rng, quick=True, seed_corpus=True):
     data, w = simple_file([b'abcabcabd' * 30], 9, rng,
                           extra_selectors=32767 - 6, ntables=2)
     out.append(Case('v6-32767sel', data, 'surplus-selectors'))
+    wtmp = BitWriter()
+    info = B.make_block(wtmp, b'xyzzy' * 20, 9, rng, ntables=3)
+    ng = (info['syms'] + 49) // 50
     data, w = simple_file([b'xyzzy' * 20], 9, rng, ntables=3,
-                          selectors=[0, 1, 0],
-                          raw_tables=[None, None, (5, '0' * 6)])
+                          selectors=[g % 2 for g in range(ng)],
+                          raw_tables=[None, None,
+                                      (5, '0' * info['alpha'])])
     out.append(Case('v6-unused-incomplete', data, 'unused-incomplete-table'))
     data, w = simple_file([bytes(range(60)) * 3], 9, rng, ntables=2,
                           random_tables=True, deep=True)
@@ -254,8 +258,18 @@ def gen_malformed(rng, quick=True):
     out.append(Case('m-count-ok', data, 'run-count-present'))
     # block one byte over its declared capacity / exactly at it (zero runs)
     for n, nm in ((100000, 'cap'), (100001, 'cap+1')):
-        data, w = simple_file([b''], 1, rng, pre_rle=b'\0' * n, crc=0)
+        kw = {'crc': 0} if n > 100000 else {}
+        data, w = simple_file([b''], 1, rng, pre_rle=b'\0' * n, **kw)
         out.append(Case('m-zero-' + nm, data, 'capacity:' + nm))
+    # too few selectors for the symbols present -> unterminated block
+    wtmp = BitWriter()
+    pl = bytes(rng.randrange(7) for _ in range(400))
+    info = B.make_block(wtmp, pl, 9, rng, ntables=2)
+    ng = (info['syms'] + 49) // 50
+    if ng >= 2:
+        data, w = simple_file([pl], 9, rng, ntables=2,
+                              selectors=[0] * (ng - 1))
+        out.append(Case('m-fewsel', data, 'too-few-selectors'))
     # truncation at every byte of small streams
     small, w = simple_file([b'truncate me please'], 9, rng)
     two = small + simple_file([b'second stream'], 3, rng)[0]
